@@ -69,7 +69,7 @@ def rule_heap_discipline(ck, rid="C11.R1"):
             ck.holds(rid, f, node, "restore (order checked by C11.R6)")
         else:
             ck.violation(rid, f, node, f"`{path}` is mutated by {kind} - mixing an unordered mutation with heapq breaks the heap order",
-                         sink=f"{kind}:{path.split('.')[-1]}")
+                         sink=f"{kind}:{path.split('.')[-1]}", positive=True)
     ck.floor(rid, ordered_ops, 2, "heapq operations on EventQueue._queue")
     ck.count("who-writes sites(_queue)", n)
 
